@@ -1205,6 +1205,60 @@ func RuleKBfs(c *core.Ctx) {
 		}
 		c.Ob(rule, key, w.Pos(), core.FuncName(w), core.Discharged, "iterative traversal")
 	}
+	// assigned once: inside the traversal a normalized price is stored only for a
+	// commodity that has none yet (the absent edge of a comma-ok lookup of the
+	// same map and key): the first, i.e. shortest, derivation is kept
+	for _, w := range writers {
+		loops := loopsOf(w)
+		core.EachInstr(w, func(ins ssa.Instruction) {
+			mu, ok := ins.(*ssa.MapUpdate)
+			if !ok || !isNamed(mu.Map.Type(), npT) {
+				return
+			}
+			inLoop := false
+			for _, body := range loops {
+				if body[mu.Block()] {
+					inLoop = true
+				}
+			}
+			if !inLoop {
+				return // the seed entry {valuation commodity: 1}
+			}
+			key := core.FuncName(w) + ":a price is assigned only to a commodity that has none yet"
+			guarded := false
+			for _, b := range w.Blocks {
+				iff, ok := b.Instrs[len(b.Instrs)-1].(*ssa.If)
+				if !ok {
+					continue
+				}
+				cond := iff.Cond
+				neg := false
+				if u, ok := cond.(*ssa.UnOp); ok && u.Op == token.NOT {
+					cond, neg = u.X, true
+				}
+				ex, ok := cond.(*ssa.Extract)
+				if !ok || ex.Index != 1 {
+					continue
+				}
+				lk, ok := ex.Tuple.(*ssa.Lookup)
+				if !ok || !lk.CommaOk || !p.SameExpr(lk.X, mu.Map) || !p.SameExpr(lk.Index, mu.Key) {
+					continue
+				}
+				absent := b.Succs[1]
+				if neg {
+					absent = b.Succs[0]
+				}
+				if core.EdgeDominates(b, absent, mu.Block()) {
+					guarded = true
+				}
+			}
+			if guarded {
+				c.Ob(rule, key, mu.Pos(), core.FuncName(w), core.Discharged, "the store is taken on the absent edge of a lookup of the same commodity in the same map")
+			} else {
+				c.Ob(rule, key, mu.Pos(), core.FuncName(w), core.Violated, "a normalized price can be overwritten after it was assigned: a commodity priced directly against the valuation commodity receives a price derived through a longer chain")
+			}
+		})
+	}
 	// FIFO: the frontier is consumed in the order in which commodities were
 	// reached. Two shapes are known: (F1) next = queue[0]; queue = queue[1:];
 	// queue = append(queue, …) and (F2) an index that walks a growing list from
